@@ -92,6 +92,8 @@ CLASSES = {
     # label / key / file-name like: printable, no grouping, escape, comment, parameter, brackets
     'HIDDEN': minus(R('!..~', 'À..ſ', ' '), '{}\\%#[]'),
     'COMMENT': R(' ..~', 'À..ſ', '\t'),
+    # file-name / key like text without characters that form special sequences
+    'NAME': R('a..z', 'A..Z', '0..9', 'À..Ö', 'Ø..ö', '.', '/', ':', '+', '=', ',', '!', '?'),
     'MATH': minus(R('!..~', ' ', 'α..ω'), '$\\%{}#&[]'),
     'ASCII': R(' ..~', '\n', '\t'),
     'ANY': [(0, 0x10FFFF)],
